@@ -21,6 +21,7 @@ THEOREMS = [
     "MySensors.C19.segmentation", "MySensors.C19.segmentation_any_two", "MySensors.C19.cut_anywhere",
     "MySensors.C19.buffer_invariant", "MySensors.C19.delivered_exact",
     "MySensors.C19.decomposition_exists_unique", "MySensors.C19.tcp_chunking",
+    "MySensors.C19.tcp_reader_loop", "MySensors.C19.tcp_reader_any_two", "MySensors.C19.tcp_reader_chunks",
     "MySensors.C19.behaviour_independent_of_segmentation", "MySensors.C19.inline_is_model_run",
     "MySensors.C19.inline_output_is_model_step",
     "MySensors.C19.reconnect_is_concatenation", "MySensors.C19.events_any_two",
@@ -541,7 +542,7 @@ class FakeTime:
         return time.time()
 
 
-def part_tcp_reader(res, rng, tier):
+def part_tcp_reader(res, rng, tier, driver=None):
     """The real TCPTransport.run loop on a socketpair: whatever pieces recv(120) returns, the lines
     delivered are those of the stream."""
     import mysensors.gateway_tcp as gtcp
@@ -554,17 +555,43 @@ def part_tcp_reader(res, rng, tier):
         fill = (120 * k + 1 - len(body) - 1) % 120
         streams.append(body + b"x" * fill + b"\n" + b"" if (len(body) + fill + 1) % 120 == 1 else body)
         streams.append(body + b"y" * ((120 * k - len(body) - 1) % 120) + b"\r\n" + frame)
+    ops, impl = [], []
     for stream in streams:
         proto, lines = make_protocol("base")
-        a, b = socket.socketpair()
+        a, b_real = socket.socketpair()
         total = len(stream)
         state = {"done": False}
+        reads = []                  # what each loop iteration got from the socket: bytes, or None (not readable)
+
+        class RecSock:
+            """the reader's socket, recording every recv result"""
+
+            def recv(self, n):
+                data = b_real.recv(n)
+                reads.append(data)
+                return data
+
+            def __getattr__(self, name):
+                return getattr(b_real, name)
+        b = RecSock()
 
         def check_conn():
             # the watchdog hook of the reader loop: used here to end the loop once the whole
             # stream has been handed to the protocol (or the loop has idled on the drained socket)
             state["spins"] = state.get("spins", 0) + 1
-            if state["done"] or state["spins"] > 4 * (total // 100 + 10):
+            if state.get("nreads") == len(reads):
+                reads.append(None)
+            state["nreads"] = len(reads)
+            # the peer writes its next piece during every other iteration, so the loop also sees iterations with
+            # nothing to read; once everything is written the peer shuts its side down (reads then return b"")
+            pending = state.get("pending")
+            if pending and state["spins"] % 2 == 0:
+                a.sendall(pending.pop(0))
+                if not pending:
+                    a.shutdown(socket.SHUT_WR)
+            if state["done"]:
+                state["after"] = state.get("after", 0) + 1
+            if state.get("after", 0) > 2 or state["spins"] > 2 * state.get("npieces", 0) + 40:
                 raise OSError("stop reader")
         orig_time = gtcp.time
         gtcp.time = FakeTime()
@@ -577,10 +604,13 @@ def part_tcp_reader(res, rng, tier):
                 pieces.append(stream[pos:pos + k])
                 pos += k
             sizes = []
-            # write everything, then let the loop read until the socket is drained
-            for p in pieces:
+            # the first half is on the socket before the loop starts, the rest arrives while it runs
+            state["npieces"] = len(pieces)
+            for p in pieces[:len(pieces) // 2]:
                 a.sendall(p)
-            a.shutdown(socket.SHUT_WR)
+            state["pending"] = pieces[len(pieces) // 2:]
+            if not state["pending"]:
+                a.shutdown(socket.SHUT_WR)
             recvd = {"n": 0}
             real_dr = proto.data_received
 
@@ -615,8 +645,12 @@ def part_tcp_reader(res, rng, tier):
         finally:
             gtcp.time = orig_time
             a.close()
-            b.close()
+            b_real.close()
         got = ([args[0] for _, args in lines], tail.get("buf", bytes(proto.buffer)))
+        res.count("tcp-reader-empty-reads", sum(1 for r in reads if r == b""))
+        res.count("tcp-reader-idle-iterations", sum(1 for r in reads if r is None))
+        ops.append("TCPREAD " + " ".join("N" if r is None else hexs(r) for r in reads))
+        impl.append((got, stream))
         want = spec_feed(stream)
         res.evaluations += 1
         res.count("tcp-reader-streams")
@@ -630,6 +664,24 @@ def part_tcp_reader(res, rng, tier):
                                                 f"(recv sizes {sizes})",
                                         "replay": {"part": "tcp", "stream": stream.hex()}})
 
+    if driver is not None and ops:
+        try:
+            model = driver.run(ops)
+        except Exception as exc:  # noqa: BLE001
+            res.corr_diffs.append({"name": "tcp-reader-driver", "case": "driver", "model": str(exc), "impl": ""})
+            model = []
+        nd = 0
+        for op, m, (got, stream) in zip(ops, model, impl):
+            f = dict(x.split("=", 1) for x in m.split(" "))
+            mbuf = b"" if f["buf"] == "e" else bytes.fromhex(f["buf"])
+            mlines = [] if f["lines"] == "-" else [bytes.fromhex(x).decode("utf-8", "replace") if x != "e" else ""
+                                                    for x in f["lines"].split("|")]
+            if (mlines, mbuf) != got:
+                nd += 1
+                if nd <= 5:
+                    res.corr_diffs.append({"name": "tcp-reader", "case": {"part": "tcp", "stream": stream.hex(), "reads": op[:400]},
+                                           "model": m[:300], "impl": repr(got)[:300]})
+        res.traces_validated += len(model)
 
 # ------------------------------------------------------------------------------------------
 # part 2: pump flavours
@@ -1061,7 +1113,7 @@ def run(tier, seed, driver):
     part_framing(res, rng, driver, tier)
     part_events(res, rng, driver, tier)
     try:
-        part_tcp_reader(res, rng, tier)
+        part_tcp_reader(res, rng, tier, driver)
     except OSError as exc:
         res.count("tcp-reader skipped: " + str(exc)[:60])
     part_flavours(res, rng, driver, tier)
